@@ -39,7 +39,9 @@ Proof. intros ct cv h. exact (run_files h (init ct cv) (wf_init ct cv)). Qed.
 Definition q (x : Q) : Qc := Q2Qc x.
 Definition fl (i : nat) (p : Q) (te : Q) : file :=
   mkfile i true 2 3 [1%Q; 1%Q] [1%Q; 0%Q; 0%Q; 0%Q; 1%Q; 0%Q] (q p) None None
-         [([69; 99; 104; 111; 84; 105; 109; 101]%N, q te)] (Some (q 2000)) (Some [82; 79; 87]%N).
+         [([69; 99; 104; 111; 84; 105; 109; 101]%N, q te)] (Some (q 2000)) (Some [82; 79; 87]%N)
+         (* files differ in dtype, BitsStored and AcquisitionTime presence, yet are congruent *)
+         (if Nat.even i then 1 else 0) (if i <? 3 then 12 else 16) (Nat.odd i).
 
 (** 3 slices x 2 echo times, guessed order *)
 Definition ex_files : list file :=
@@ -54,7 +56,12 @@ Example C12_history_ex :
   map (fun x => ids (files_info (run (init false false) (map OAdd (rev ex_files) ++ firstn x ex_ops)))) [0; 1; 2; 3]
   = [[5; 4; 3; 2; 1; 0]; [0; 1; 2; 3; 4; 5]; [2; 1; 0; 5; 4; 3]; [0; 1; 2; 3; 4; 5]] /\
   option_map o_order (match snd (to_nifti (run (init false false) (map OAdd (rev ex_files) ++ ex_ops)) (Some true) true)
-                      with Ok o => Some o | Err _ => None end) = Some [2; 1; 0; 5; 4; 3].
+                      with Ok o => Some o | Err _ => None end) = Some [2; 1; 0; 5; 4; 3] /\
+  (* dtype comes from the first file of the SORTED list (file 0: uint16 with 12 bits -> int16), never from the
+     first file added (file 5: int16 data, 16 bits); slice timing is off because not every file has AcquisitionTime *)
+  option_map (fun o => (o_data_ref o, o_dtype o, o_has_acq o))
+             (match snd (to_nifti (run (init false false) (map OAdd (rev ex_files) ++ ex_ops)) (Some true) true)
+              with Ok o => Some o | Err _ => None end) = Some (0, 0, false).
 Proof. repeat split; vm_compute; reflexivity. Qed.
 
 Example C12_fresh_ex :
